@@ -1374,12 +1374,20 @@ def has_free_payload(spec):
   return spec[-1]["t"] == "raw" and "len" in spec[-1] and spec[-1]["len"] > 0
 
 
+_LONG = ("ipv4-tcp-opts", "ipv4-tcp-unkopt", "ipv4-tcp-sack", "ipv4-opts-raw", "ipv6-hbh-udp", "ipv4-gre-route-raw", "mpls2-raw",
+         "snap-ipv4-udp", "ipv4-icmp-echo", "ipv6-icmp6-echo")
+
+
 def corpus():
-  """[(name, frame)]: the catalog built by the reference builder, with an even and an odd payload."""
+  """[(name, frame)]: the catalog built by the reference builder, with an even and an odd payload; a few entries
+  also with a 41-byte payload so that a corrupted length field can point into payload that exists."""
   out = []
   for n in (6, 7):
     for name, spec in catalog(n):
       if n == 7 and not has_free_payload(spec):
         continue
       out.append(("%s-%d" % (name, n), build(spec)))
+  for name, spec in catalog(41):
+    if name in _LONG:
+      out.append(("%s-41" % name, build(spec)))
   return out
